@@ -129,7 +129,7 @@ CLAIMED = {
             "here); fp_srt / fp_inv enter the encoding theorems through their contracts (C02 class C); comb-d, sim_lot, mul_dig, ed_blind, "
             "ed_on_curve are compared only. Known findings C17-F1..F8 (long scalars; ed_mul_lwreg T coordinate and 1-byte stack overrun; "
             "ed_sub_extnd outside the EXTND build; ed_neg_basic leaves z; ed_upk status).",
-            "tools/ADDING_A_PROPERTY.md; findings/C17-1.md"),
+            "findings/C17-design.md; findings/C17-1.md"),
     "C18": ("Translator (selectable field and curve tables extracted from relic_fp_param.c / relic_ep_param.c on every run) + Lean 4 kernel "
             "evaluation of the consistency predicates on the extracted literals + Pratt certificates checked in Lean (soundness proved with "
             "Mathlib's Lucas test) + correspondence of the table with the values the running library reports",
